@@ -323,7 +323,10 @@ func (s *Sim) Settle() error {
 // Tick performs a full clock period on `clock`: rise, settle, fall, settle.
 func (s *Sim) Tick(clock string) error {
 	s.beginCall()
-	sv := s.lookup(clock)
+	sv := s.p.names[clock]
+	if sv == nil || sv.st.isMem {
+		return fmt.Errorf("%w: Tick: unknown clock signal %q", ErrElab, clock)
+	}
 	st := sv.st
 	s.storeBits(st, 0, 0, st.width, 1, nil, 0)
 	if err := s.settle(); err != nil {
